@@ -490,6 +490,28 @@ pub fn colon_colon_completions(
             })
             .ok()?;
 
+    // A package can only be named by a file that imports it.
+    let first_segment = segments[0].as_str();
+    let names_local_item = genv
+        .enums()
+        .contains_key(&tast::TastIdent(first_segment.to_string()))
+        || genv
+            .structs()
+            .contains_key(&tast::TastIdent(first_segment.to_string()))
+        || genv.trait_env.trait_defs.contains_key(first_segment);
+    let own_package = file
+        .package_decl()
+        .and_then(|decl| decl.name_token())
+        .map(|tok| tok.to_string())
+        .unwrap_or_else(|| "Main".to_string());
+    let imported = file
+        .import_decls()
+        .filter_map(|decl| decl.name_token())
+        .any(|tok| tok.text() == first_segment);
+    if !names_local_item && first_segment != own_package && !imported {
+        return Some(Vec::new());
+    }
+
     let mut items = colon_colon_items_for_namespace(&genv, &namespace);
     items.sort_by(|a, b| a.name.cmp(&b.name));
     items.retain(|item| item.name.starts_with(&prefix));
